@@ -5,8 +5,8 @@
 use crate::util::Dialect;
 use sea_query::extension::postgres::PgBinOper;
 use sea_query::extension::sqlite::SqliteBinOper;
+use crate::spec::Sel;
 use sea_query::*;
-use vcore::lex::{sqlite_ident, sqlite_str};
 use vcore::px::PX;
 
 #[derive(Clone, Debug, PartialEq)]
@@ -29,6 +29,22 @@ pub enum X {
     Cast(Box<X>, &'static str),
     Case(Vec<(X, X)>, Option<Box<X>>),
     Tuple(Vec<X>),
+    /// table-qualified column
+    QCol(String, String),
+    /// arbitrary bound value
+    Val(Value),
+    /// `*` (inside COUNT)
+    Star,
+    /// [NOT] EXISTS (subquery)
+    Exists(bool, Box<Sel>),
+    /// expr [NOT] IN (subquery)
+    InSub(Box<X>, bool, Box<Sel>),
+    /// scalar subquery
+    Scalar(Box<Sel>),
+    /// opaque custom fragment (a plain word)
+    Cust(String),
+    /// Postgres enum cast: (type name, expr)
+    AsEnum(String, Box<X>),
 }
 
 pub fn b(x: X) -> Box<X> {
@@ -180,6 +196,11 @@ impl X {
                     ("SUM", 1) => Func::sum(a[0].clone()).into(),
                     ("COUNT", 1) => Func::count(a[0].clone()).into(),
                     ("ROUND", 1) => Func::round(a[0].clone()).into(),
+                    ("IFNULL", 2) => Func::if_null(a[0].clone(), a[1].clone()).into(),
+                    ("GREATEST", _) => Func::greatest(a).into(),
+                    ("LEAST", _) => Func::least(a).into(),
+                    ("CHAR_LENGTH", 1) => Func::char_length(a[0].clone()).into(),
+                    ("COUNT_DISTINCT", 1) => Func::count_distinct(a[0].clone()).into(),
                     (n, _) => Func::cust(Alias::new(n)).args(a).into(),
                 }
             }
@@ -195,6 +216,27 @@ impl X {
                 c.into()
             }
             X::Tuple(v) => SimpleExpr::Tuple(v.iter().map(|x| x.build()).collect()),
+            X::QCol(t, c) => Expr::col((Alias::new(t.as_str()), Alias::new(c.as_str()))).into(),
+            X::Val(v) => SimpleExpr::Value(v.clone()),
+            X::Star => Expr::col(Asterisk).into(),
+            X::Exists(not, s) => {
+                let e = Expr::exists(crate::apply::sel(s));
+                if *not {
+                    e.not()
+                } else {
+                    e
+                }
+            }
+            X::InSub(e, not, s) => {
+                if *not {
+                    ExprTrait::not_in_subquery(e.build(), crate::apply::sel(s))
+                } else {
+                    ExprTrait::in_subquery(e.build(), crate::apply::sel(s))
+                }
+            }
+            X::Scalar(s) => SimpleExpr::SubQuery(None, Box::new(crate::apply::sel(s).into_sub_query_statement())),
+            X::Cust(w) => Expr::cust(w.as_str()),
+            X::AsEnum(t, e) => e.build().as_enum(Alias::new(t.as_str())),
         }
     }
 
@@ -262,70 +304,19 @@ impl X {
                     PX::Tuple(v.iter().map(|x| x.expected(d)).collect())
                 }
             }
+            X::QCol(t, c) => PX::Col(vec![t.clone(), c.clone()]),
+            X::Star => PX::Col(vec!["*".into()]),
+            X::Cust(w) => PX::Kw(w.clone()),
+            X::Val(_) | X::Exists(..) | X::InSub(..) | X::Scalar(_) | X::AsEnum(..) => {
+                unimplemented!("statement-level nodes are compared through the reference renderer, not expected()")
+            }
         }
     }
 
-    /// Fully parenthesised SQLite rendering, written from the SQLite grammar.
+    /// Fully parenthesised SQLite rendering, written from the SQLite grammar (inline literals).
     pub fn reference_sqlite(&self) -> String {
-        match self {
-            X::Col(c) => sqlite_ident(c),
-            X::Int(i) => i.to_string(),
-            X::Text(s) => sqlite_str(s),
-            X::Null => "NULL".into(),
-            X::Bool(v) => if *v { "TRUE" } else { "FALSE" }.into(),
-            X::Not(e) => format!("(NOT ({}))", e.reference_sqlite()),
-            X::Bin(l, op, r) => format!(
-                "(({}) {} ({}))",
-                l.reference_sqlite(),
-                op_name(Dialect::Sqlite, op),
-                r.reference_sqlite()
-            ),
-            X::Between(e, not, lo, hi) => format!(
-                "(({}) {}BETWEEN ({}) AND ({}))",
-                e.reference_sqlite(),
-                if *not { "NOT " } else { "" },
-                lo.reference_sqlite(),
-                hi.reference_sqlite()
-            ),
-            X::Like(e, not, pat, esc) => format!(
-                "(({}) {}LIKE ({}){})",
-                e.reference_sqlite(),
-                if *not { "NOT " } else { "" },
-                pat.reference_sqlite(),
-                esc.map(|c| format!(" ESCAPE {}", sqlite_str(&c.to_string()))).unwrap_or_default()
-            ),
-            X::In(e, not, list) => {
-                if list.is_empty() {
-                    if *not { "(1 = 1)" } else { "(1 = 2)" }.into()
-                } else {
-                    format!(
-                        "(({}) {}IN ({}))",
-                        e.reference_sqlite(),
-                        if *not { "NOT " } else { "" },
-                        list.iter().map(|x| format!("({})", x.reference_sqlite())).collect::<Vec<_>>().join(", ")
-                    )
-                }
-            }
-            X::IsNull(e, not) => format!("(({}) IS {}NULL)", e.reference_sqlite(), if *not { "NOT " } else { "" }),
-            X::Func(name, args) => {
-                let n = match *name {
-                    "GREATEST" => "MAX",
-                    "LEAST" => "MIN",
-                    other => other,
-                };
-                format!("{n}({})", args.iter().map(|x| x.reference_sqlite()).collect::<Vec<_>>().join(", "))
-            }
-            X::Cast(e, ty) => format!("CAST(({}) AS {ty})", e.reference_sqlite()),
-            X::Case(whens, els) => format!(
-                "(CASE{}{} END)",
-                whens
-                    .iter()
-                    .map(|(w, t)| format!(" WHEN ({}) THEN ({})", w.reference_sqlite(), t.reference_sqlite()))
-                    .collect::<String>(),
-                els.as_ref().map(|e| format!(" ELSE ({})", e.reference_sqlite())).unwrap_or_default()
-            ),
-            X::Tuple(v) => format!("({})", v.iter().map(|x| x.reference_sqlite()).collect::<Vec<_>>().join(", ")),
-        }
+        let mut r = crate::refsql::Ref::new(Dialect::Sqlite, false);
+        crate::refsql::x(&mut r, self)
     }
 
     pub fn depth(&self) -> usize {
@@ -335,6 +326,8 @@ impl X {
     pub fn children(&self) -> Vec<&X> {
         match self {
             X::Col(_) | X::Int(_) | X::Text(_) | X::Null | X::Bool(_) => vec![],
+            X::QCol(..) | X::Val(_) | X::Star | X::Exists(..) | X::Scalar(_) | X::Cust(_) => vec![],
+            X::InSub(e, _, _) | X::AsEnum(_, e) => vec![e],
             X::Not(e) | X::IsNull(e, _) | X::Cast(e, _) => vec![e],
             X::Bin(l, _, r) => vec![l, r],
             X::Between(e, _, lo, hi) => vec![e, lo, hi],
@@ -364,6 +357,12 @@ impl X {
             X::Cast(_, _) => "CAST".into(),
             X::Case(_, _) => "CASE".into(),
             X::Tuple(_) => "tuple".into(),
+            X::QCol(..) => "col".into(),
+            X::Val(_) | X::Star | X::Cust(_) => "lit".into(),
+            X::Exists(..) => "EXISTS".into(),
+            X::InSub(_, n, _) => if *n { "NOT IN(sub)" } else { "IN(sub)" }.into(),
+            X::Scalar(_) => "(sub)".into(),
+            X::AsEnum(..) => "AS ENUM".into(),
         }
     }
 }
